@@ -225,6 +225,10 @@ def main(argv=None):
         if d >= 200 and n < frac * d:
             harness_errors.append("generator degenerate: label %r %d/%d below floor %.3f" % (label, n, d, frac))
 
+    if stats.inconclusive > 0.2 * max(1, stats.evaluations + stats.inconclusive):
+        harness_errors.append("%d of %d cases were inconclusive (harness guards hit): the run does not support a verdict"
+                              % (stats.inconclusive, stats.evaluations + stats.inconclusive))
+
     # 4. verdict, replay files, evidence
     new = {s: x for s, x in found.items() if s not in exclude}
     replay_dir = os.path.join(ROOT, "replays", pid)
